@@ -228,3 +228,8 @@ Example decode_examples :
   decode 3 (ansi_body [1; 55]) = DOk [15] /\
   ansi_body [1; 55] = [92; 48; 48; 49; 55].
 Proof. vm_compute. repeat split; reflexivity. Qed.
+
+(** the decoder as it is now (regenerated digit count) *)
+Theorem decode_ansi_body_current s : Forall (fun c => c <> 0) s ->
+  decode zero_octal_digits_ansic (ansi_body s) = DOk (utf8s s).
+Proof. change zero_octal_digits_ansic with 2%nat. apply decode_ansi_body. Qed.
